@@ -52,8 +52,40 @@ def gen_case(rng, tier):
     profile = rng.choice(["none", "valid", "valid", "changing", "wrongclient", "badcookie", "disappear", "mixed", "mixed"])
     aligned = rng.random() < 0.3
     clk = Clock(rng, aligned)
-    unspec = rng.random() < 0.04          # source address unknown (no getsockname)
-    ips = ["4:" + hexbytes(rng, 4), "4:" + hexbytes(rng, 4), "6:" + hexbytes(rng, 16)]
+    # source addresses: byte-position directed pairs (the comparison in ares_addr_equal looks at the
+    # family and then at 4 resp. 16 bytes: every byte position must be able to make the difference)
+    amode = rng.choice(["plain", "plain", "plain", "v6byte", "v6byte", "v6byte", "v6tail", "v4byte", "v4byte", "cross", "unspec"])
+    unspec = amode == "unspec" and rng.random() < 0.8      # source address unknown (no getsockname)
+    if amode == "v6byte":
+        a = [rng.randrange(256) for _ in range(16)]
+        k = rng.randrange(16)
+        b = list(a)
+        b[k] ^= rng.choice([1, 2, 4, 8, 16, 32, 64, 128, 255])
+        c = list(a)
+        c[rng.randrange(16)] ^= rng.choice([1, 128, 255])
+        ips = ["6:" + bytes(a).hex(), "6:" + bytes(b).hex(), "6:" + bytes(c).hex()]
+    elif amode == "v6tail":                                # same /64 (or same first 4 bytes), other interface id
+        a = [rng.randrange(256) for _ in range(16)]
+        keep = rng.choice([4, 8, 8, 12])
+        b = a[:keep] + [rng.randrange(256) for _ in range(16 - keep)]
+        if b == a:
+            b[15] ^= 1
+        ips = ["6:" + bytes(a).hex(), "6:" + bytes(b).hex()]
+    elif amode == "v4byte":
+        a = [rng.randrange(256) for _ in range(4)]
+        b = list(a)
+        b[rng.randrange(4)] ^= rng.choice([1, 2, 16, 128, 255])
+        ips = ["4:" + bytes(a).hex(), "4:" + bytes(b).hex(), "4:" + hexbytes(rng, 4)]
+    elif amode == "cross":                                 # IPv4 and IPv6 address with the same leading bytes
+        a = [rng.randrange(256) for _ in range(4)]
+        ips = ["4:" + bytes(a).hex(), "6:" + bytes(a + [0] * 12).hex(), "6:" + bytes(a + [rng.randrange(256) for _ in range(12)]).hex()]
+    else:
+        ips = ["4:" + hexbytes(rng, 4), "4:" + hexbytes(rng, 4), "6:" + hexbytes(rng, 16)]
+    if amode == "unspec" and not unspec:
+        ips = ["0", ips[0]]                                # known <-> unknown source
+    focus = amode not in ("plain", "unspec")
+    if focus and rng.random() < 0.7:
+        profile = rng.choice(["valid", "valid", "changing", "mixed"])   # so that there is a server cookie to lose
     ip = "0" if unspec else ips[0]
     nsteps = rng.choice([2, 4, 8, 12, 20, 30]) if tier != "thorough" else rng.choice([4, 12, 30, 60])
     server_cookie = hexbytes(rng, rng.choice([8, 8, 8, 16, 32]))
@@ -84,8 +116,8 @@ def gen_case(rng, tier):
                 pending = None
         elif kind == "apply":
             tcp = 1 if rng.random() < 0.08 else 0
-            if not unspec and rng.random() < 0.1:
-                ip = rng.choice(ips)
+            if not unspec and rng.random() < (0.35 if focus else 0.1):
+                ip = rng.choice([x for x in ips if x != ip] or ips)      # A, B, A, ...
             if rng.random() < 0.01:
                 ip = "0"
             rnd = "%s,%s" % (hexbytes(rng, 8), hexbytes(rng, 8))
